@@ -30,6 +30,8 @@ def mutants_table():
         missed_first = sorted(c for c, e in first.items() if e != 1)
         caught = ', '.join(m.get('caught_by', [])) or 'NOT CAUGHT'
         note = (' (first run of %s missed it; strengthened)' % ', '.join(missed_first)) if missed_first and m.get('caught_by') else ''
+        if m.get('obsolete'):
+            note += ' - OBSOLETE on the final tree: ' + m['obsolete']
         rows.append('| `%s` | %s | %s | %s%s |' % (m['seed_id'], m['breaks_property'], m.get('needs_to_manifest', ''), caught, note))
     return '\n'.join(rows)
 
